@@ -19,7 +19,7 @@ import (
 
 var lexChars = map[string]string{
 	"a": "k", "s": " ", "q": `"`, "c": ",", "h": "#", "e": "=", "o(": "(", "c)": ")", "o{": "{", "c}": "}", "o[": "[", "c]": "]",
-	"sl": "/", "at": "@", "bs": `\`, "nl": "\n", "u": "é", "st": "*",
+	"sl": "/", "at": "@", "bs": `\`, "nl": "\n", "u": "é", "st": "*", "dl": "$", "pc": "%",
 	"owner": "owner", "audit": "audit", "deny": "deny", "allow": "allow", "acc": "rw", "arrow": "->", "tgt": "tgtprofile",
 }
 
